@@ -25,9 +25,18 @@ SETUP_BUILDS = [{"name": "c04"}]
 COQ_TARGETS = ["Store/Properties_C12.v", "Store/Corr.v"]
 HEADER = c04.HEADER
 
-TRACE_SET = ("openat,open,creat,rename,renameat,renameat2,unlink,unlinkat,mkdir,mkdirat,rmdir,write,pwrite64,ftruncate,"
-             "truncate,copy_file_range,sendfile,link,linkat,symlink,symlinkat")
+TRACE_SET = ("%file,write,pwrite64,writev,pwritev,pwritev2,ftruncate,fallocate,copy_file_range,sendfile,splice,"
+             "fchmod,fchown,fsetxattr,fremovexattr")
 MUTATING_OPEN = re.compile(r"O_CREAT|O_TRUNC")
+# calls with a path argument that do not change what the projection shows (reads, metadata)
+HARMLESS = {"stat", "lstat", "newfstatat", "fstatat64", "statx", "access", "faccessat", "faccessat2", "readlink", "readlinkat",
+            "getcwd", "chdir", "execve", "execveat", "statfs", "getxattr", "lgetxattr", "listxattr", "llistxattr",
+            "utimensat", "utime", "utimes", "futimesat", "chown", "lchown", "fchownat", "fchown", "inotify_add_watch",
+            "fsetxattr", "fremovexattr", "setxattr", "lsetxattr", "removexattr", "lremovexattr", "name_to_handle_at"}
+
+
+class UnknownCall(Exception):
+    """a traced call that may change the store and that the replayer has no rule for"""
 
 
 # ----------------------------------------------------------------------------------------------- strace log
@@ -41,7 +50,8 @@ ANN = re.compile(r'<((?:\\x[0-9a-f]{2})*)>')
 
 
 def parse_trace(path, root):
-    """-> list of mutating calls (dicts) on paths under root, in completion order, between the begin/end markers"""
+    """-> list of mutating calls (dicts) on paths under root, in completion order, between the begin/end markers.
+    A call on the store that is neither known to be harmless nor has a replay rule becomes {"call": "unknown", ...}."""
     calls, pending, on = [], {}, False
     rootb = root.encode()
     for raw in open(path, errors="replace"):
@@ -65,17 +75,28 @@ def parse_trace(path, root):
             continue
         if not on or ret == "?" or int(ret) < 0:
             continue
-        anns = [unhex(x) for x in ANN.findall(args)]
+        anns = [unhex(x).split(b" (deleted)")[0] for x in ANN.findall(args)]
 
         def under(p):
             return p.startswith(rootb + b"/")
+        touched = [p for p in strs + anns if under(p)]
+        if not touched or name in HARMLESS:
+            continue
         c = None
-        if name in ("openat", "open", "creat"):
-            if strs and under(strs[0]) and (name == "creat" or MUTATING_OPEN.search(args)):
+        if name in ("openat", "open", "creat", "openat2"):
+            if not (name == "creat" or MUTATING_OPEN.search(args)):
+                continue
+            if strs and under(strs[0]):
                 c = {"call": "open", "path": strs[0], "trunc": "O_TRUNC" in args or name == "creat", "excl": "O_EXCL" in args}
         elif name == "write":
             if anns and under(anns[0]) and strs:
                 c = {"call": "write", "path": anns[0], "data": strs[0][:int(ret)]}
+        elif name in ("writev", "pwritev", "pwritev2"):
+            if anns and under(anns[0]):
+                data = b"".join(strs)[:int(ret)]
+                c = {"call": "write", "path": anns[0], "data": data}
+                if name != "writev":
+                    c = {"call": "pwrite", "path": anns[0], "data": data, "off": int(re.findall(r",\s*(\d+)", args)[-1 if name == "pwritev" else -2])}
         elif name == "pwrite64":
             if anns and under(anns[0]) and strs:
                 off = int(args.rsplit(",", 1)[1])
@@ -84,23 +105,49 @@ def parse_trace(path, root):
             p = anns[0] if name == "ftruncate" and anns else (strs[0] if strs else None)
             if p and under(p):
                 c = {"call": "truncate", "path": p, "len": int(args.rsplit(",", 1)[1])}
+        elif name == "fallocate":
+            # fallocate(fd, mode, offset, len): mode 0 may extend the file
+            f = [x.strip() for x in args.rsplit(">", 1)[1].split(",")[1:]]
+            if anns and under(anns[0]) and len(f) == 3:
+                c = {"call": "extend", "path": anns[0], "len": int(f[1]) + int(f[2])} if f[0] == "0" else None
+                if c is None:
+                    continue
         elif name in ("rename", "renameat", "renameat2"):
             if len(strs) >= 2 and under(strs[0]) and under(strs[1]):
-                c = {"call": "rename", "path": strs[0], "to": strs[1]}
+                c = {"call": "rename", "path": strs[0], "to": strs[1], "exchange": "RENAME_EXCHANGE" in args, "noreplace": "RENAME_NOREPLACE" in args}
         elif name in ("unlink", "unlinkat", "rmdir"):
             if strs and under(strs[0]):
                 c = {"call": "rmdir" if (name == "rmdir" or "AT_REMOVEDIR" in args) else "unlink", "path": strs[0]}
         elif name in ("mkdir", "mkdirat"):
             if strs and under(strs[0]):
                 c = {"call": "mkdir", "path": strs[0]}
-        elif name == "copy_file_range":
-            if len(anns) >= 2 and under(anns[1]):
-                c = {"call": "copy", "path": anns[1], "src": anns[0], "n": int(ret)}
-        elif name in ("link", "linkat", "symlink", "symlinkat", "sendfile"):
-            c = {"call": "unsupported:" + name, "path": (strs or anns or [b""])[0]}
-        if c:
-            calls.append(c)
+        elif name in ("copy_file_range", "sendfile"):
+            # copy_file_range(in, off_in, out, ...), sendfile(out, in, ...)
+            if len(anns) >= 2:
+                src, dst = (anns[0], anns[1]) if name == "copy_file_range" else (anns[1], anns[0])
+                if under(dst):
+                    c = {"call": "copy", "path": dst, "src": src, "n": int(ret)}
+                else:
+                    continue
+        elif name in ("link", "linkat"):
+            if len(strs) >= 2 and under(strs[1]):
+                c = {"call": "link", "path": strs[1], "src": strs[0]}
+        elif name in ("symlink", "symlinkat"):
+            if len(strs) >= 2 and under(strs[1]):
+                c = {"call": "symlink", "path": strs[1], "target": strs[0]}
+        elif name in ("chmod", "fchmodat", "fchmod"):
+            p = strs[0] if strs else (anns[0] if anns else None)
+            mm = re.search(r"\b(0[0-7]{3,4})\b", args.rsplit(">", 1)[-1] if name == "fchmod" else args.rsplit('"', 1)[-1])
+            if p and under(p) and mm:
+                c = {"call": "chmod", "path": p, "mode": int(mm.group(1), 8)}
+        if c is None:
+            c = {"call": "unknown", "name": name, "line": "%s(%s) = %s" % (name, re.sub(QS, lambda q: repr(unhex(q.group(1))[:80]), args)[:300], ret),
+                 "path": touched[0]}
+        calls.append(c)
     return calls
+
+
+KILL_SET = "openat,renameat,renameat2,unlinkat,mkdirat,write,pwrite64,ftruncate,copy_file_range,linkat,symlinkat"
 
 
 def kill_window(path):
@@ -138,7 +185,7 @@ class Replayer:
 
     def p(self, path):
         path = path.split(b" (deleted)")[0]
-        return self.b + path[len(self.a):]
+        return self.b + path[len(self.a):] if path.startswith(self.a + b"/") or path == self.a else path
 
     def apply(self, c):
         k = c["call"]
@@ -160,8 +207,20 @@ class Replayer:
                 f.write(c["data"])
         elif k == "truncate":
             os.truncate(p, c["len"])
+        elif k == "extend":
+            if os.path.getsize(p) < c["len"]:
+                os.truncate(p, c["len"])
         elif k == "rename":
-            os.rename(p, self.p(c["to"]))
+            q = self.p(c["to"])
+            if c.get("exchange"):
+                t = q + b".c12-exchange"
+                os.rename(q, t)
+                os.rename(p, q)
+                os.rename(t, p)
+            else:
+                if c.get("noreplace") and os.path.lexists(q):
+                    raise ValueError("replay: RENAME_NOREPLACE onto an existing file %r" % q)
+                os.rename(p, q)
             self.off.pop(p, None)
         elif k == "unlink":
             os.unlink(p)
@@ -170,6 +229,12 @@ class Replayer:
             os.rmdir(p)
         elif k == "mkdir":
             os.mkdir(p)
+        elif k == "link":
+            os.link(self.p(c["src"]), p)
+        elif k == "symlink":
+            os.symlink(self.p(c["target"]), p)
+        elif k == "chmod":
+            os.chmod(p, c["mode"])
         elif k == "copy":
             s = self.p(c["src"])
             io_ = self.off.get((s, "in"), 0)
@@ -180,8 +245,17 @@ class Replayer:
                 f.write(data)
             self.off[p] = o + len(data)
             self.off[(s, "in")] = io_ + len(data)
+        elif k == "unknown":
+            raise UnknownCall(c["line"])
         else:
             raise ValueError("traced call the replayer does not know: %r" % (c,))
+
+
+def copy_tree(src, dst):
+    """copy a store keeping hard links and symbolic links as they are (shutil.copytree would split shared inodes)"""
+    r = subprocess.run(["cp", "-a", src, dst], capture_output=True, text=True)
+    if r.returncode != 0:
+        raise RuntimeError("cp -a failed: " + r.stderr[-300:])
 
 
 # ----------------------------------------------------------------------------------------------- running things
@@ -247,12 +321,12 @@ def run_case(ctx, binp, fx, pre, group, tag, kill_sample=0, rng=None):
     c.base_state = proj_state(binp, base)
     # uninterrupted run (reference, and oracle inputs)
     ref = os.path.join(wd, "ref")
-    shutil.copytree(base, ref)
+    copy_tree(base, ref)
     c.ref_obs = run_ops_on(ctx, binp, ref, group)
     c.ref_state = c.ref_obs[-1]["state"]
     # traced run
     tr = os.path.join(wd, "traced")
-    shutil.copytree(base, tr)
+    copy_tree(base, tr)
     opf = os.path.join(wd, "op.json")
     json.dump({"ops": c04.strip(group)}, open(opf, "w"))
     log = os.path.join(wd, "trace.log")
@@ -262,10 +336,13 @@ def run_case(ctx, binp, fx, pre, group, tag, kill_sample=0, rng=None):
         raise RuntimeError("traced run failed rc=%d %s" % (p.returncode, p.stderr[-500:]))
     calls = parse_trace(log, tr)
     c.ncalls = len(calls)
+    unknown = [x for x in calls if x["call"] == "unknown"]
+    if unknown:
+        raise UnknownCall("; ".join(sorted({x["line"] for x in unknown}))[:600])
     traced_final = proj_state(binp, tr)
     # replay the prefixes
     rp = os.path.join(wd, "replay")
-    shutil.copytree(base, rp)
+    copy_tree(base, rp)
     R = Replayer(tr, rp)
     c.states = [c.base_state]
     c.snaps = [base]
@@ -274,7 +351,7 @@ def run_case(ctx, binp, fx, pre, group, tag, kill_sample=0, rng=None):
         st = proj_state(binp, rp)
         if st != c.states[-1]:
             sn = os.path.join(wd, "snap-%d" % (j + 1))
-            shutil.copytree(rp, sn)
+            copy_tree(rp, sn)
             c.states.append(st)
             c.snaps.append(sn)
     c.replay_faithful = (proj_state(binp, rp) == traced_final)
@@ -288,7 +365,7 @@ def run_case(ctx, binp, fx, pre, group, tag, kill_sample=0, rng=None):
         kd = os.path.join(wd, "kill-%d" % k)
         if os.path.exists(kd):
             continue
-        shutil.copytree(base, kd)
+        copy_tree(base, kd)
         subprocess.run(["strace", "-f", "-o", "/dev/null", "-e", "inject=%s:signal=SIGKILL:when=%d" % (KILL_SET, k),
                         binp, "op", kd, opf], capture_output=True, text=True, timeout=300, env=vlib.goenv())
         st = proj_state(binp, kd)
@@ -301,15 +378,12 @@ def recover_and_redo(ctx, binp, c, i):
     """the real start-up on crash state i, then the operation again"""
     sn = c.snaps[i]
     rd = sn + "-rec%d" % i
-    shutil.copytree(sn, rd)
+    copy_tree(sn, rd)
     rc, out = serve(binp, rd)
     rst = proj_state(binp, rd)
     obs = run_ops_on(ctx, binp, rd, c.group, noapi=False)
     shutil.rmtree(rd, ignore_errors=True)
     return {"rc": rc, "out": out, "state": rst}, obs
-
-
-KILL_SET = "openat,renameat,renameat2,unlinkat,mkdirat,write,pwrite64,ftruncate,copy_file_range"
 
 
 def strip_temp(st):
@@ -331,6 +405,12 @@ def monitor_case(c):
         rst = rec["state"]
         if rec["rc"] != 0:
             out.append(({"class": "startup-failed", "op": kinds}, "start-up after a crash in %s failed: %s" % (kinds, rec["out"]), i))
+        for e in rst["manifests"] + rst["blobs"]:
+            if e.get("linked") or e.get("symlink") is not None:
+                out.append(({"class": "aliased-files", "op": kinds, "kind": "symlink" if e.get("symlink") is not None else "hardlink"},
+                            "after a crash at prefix %d of %s and restart, %s %s: changing one model changes the other" % (
+                                i, kinds, e.get("path") or e.get("name"),
+                                ("is a symbolic link to %s" % e["symlink"]) if e.get("symlink") is not None else ("shares its inode with %s" % e["linked"])), i))
         # every name that resolves to a readable manifest has all layers present and intact
         for m in rst["manifests"]:
             if m["readable"]:
@@ -540,6 +620,8 @@ def run(ctx):
         i, (k, pre, group) = a
         try:
             return run_case(ctx, binp, fx, pre, group, "%d" % i, kill_sample=(1 if ctx.quick() else 6), rng=__import__("random").Random(ctx.seed * 7919 + i))
+        except UnknownCall as ex:
+            return ("unknown-call", str(ex), k, pre, group)
         except Exception as ex:  # reported below
             import traceback
             return ("error", traceback.format_exc(), k, pre, group)
@@ -569,6 +651,11 @@ def run(ctx):
     reported = set()
     for (k, pre, group), c in zip(cases, results):
         hist = {"pre": [c04.describe(o) for o in pre], "operation": [c04.describe(o) for o in group]}
+        if isinstance(c, tuple) and c[0] == "unknown-call":
+            ctx.mismatch("the traced operation %s made a file-system call on the store that the crash replayer has no rule for, so its crash "
+                         "points cannot be enumerated: %s  (the model knows no such effect either; extend parse_trace/Replayer in props/c12.py and "
+                         "the effects of coq/Store/Fs.v)" % ("+".join(o["op"] for o in group), c[1]), hist, c[1])
+            continue
         if isinstance(c, tuple):
             ctx.mismatch("crash driver could not process the case (%s)" % c[1].strip().split("\n")[-1], hist, c[1][-1500:])
             continue
